@@ -22,14 +22,39 @@ pub const SYMBOLS: [&str; 16] = [
 	"S15",
 ];
 
+/// Names beyond the pools, for deliberately WIDE schemas (hundreds of fields / symbols / named types): made once and
+/// leaked, so that they are `&'static str` like the pool entries.
+pub const WIDE_LIMIT: usize = 640;
+fn wide_names(prefix: &'static str, cell: &'static std::sync::OnceLock<Vec<&'static str>>) -> &'static [&'static str] {
+	cell.get_or_init(|| (0..WIDE_LIMIT).map(|i| &*Box::leak(format!("{prefix}{i}").into_boxed_str())).collect())
+}
+static WIDE_TYPES: std::sync::OnceLock<Vec<&'static str>> = std::sync::OnceLock::new();
+static WIDE_FIELDS: std::sync::OnceLock<Vec<&'static str>> = std::sync::OnceLock::new();
+static WIDE_SYMBOLS: std::sync::OnceLock<Vec<&'static str>> = std::sync::OnceLock::new();
+
 pub fn type_name(i: u16) -> &'static str {
-	TYPE_NAMES[i as usize % TYPE_NAMES.len()]
+	let i = i as usize;
+	if i < TYPE_NAMES.len() {
+		TYPE_NAMES[i]
+	} else {
+		wide_names("w.x.W", &WIDE_TYPES)[i % WIDE_LIMIT]
+	}
 }
 pub fn field_name(i: u16) -> &'static str {
-	FIELD_NAMES[i as usize % FIELD_NAMES.len()]
+	let i = i as usize;
+	if i < FIELD_NAMES.len() {
+		FIELD_NAMES[i]
+	} else {
+		wide_names("g", &WIDE_FIELDS)[i % WIDE_LIMIT]
+	}
 }
 pub fn symbol(i: u16) -> &'static str {
-	SYMBOLS[i as usize % SYMBOLS.len()]
+	let i = i as usize;
+	if i < SYMBOLS.len() {
+		SYMBOLS[i]
+	} else {
+		wide_names("T", &WIDE_SYMBOLS)[i % WIDE_LIMIT]
+	}
 }
 
 #[derive(Clone, Debug, PartialEq, Eq, Serialize, Deserialize)]
@@ -81,17 +106,24 @@ impl Env {
 			Ty::Array(t) | Ty::Map(t) => self.walk(t),
 			Ty::Union(ts) => ts.iter().for_each(|t| self.walk(t)),
 			Ty::Record { name, fields } => {
-				self.defs[*name as usize] = Some(ty.clone());
+				self.define(*name, ty);
 				fields.iter().for_each(|(_, t)| self.walk(t));
 			}
 			Ty::Enum { name, .. }
 			| Ty::Fixed { name, .. }
 			| Ty::DecimalFixed { name, .. }
 			| Ty::Duration { name } => {
-				self.defs[*name as usize] = Some(ty.clone());
+				self.define(*name, ty);
 			}
 			_ => {}
 		}
+	}
+	fn define(&mut self, name: u16, ty: &Ty) {
+		let i = name as usize;
+		if self.defs.len() <= i {
+			self.defs.resize(i + 1, None);
+		}
+		self.defs[i] = Some(ty.clone());
 	}
 	pub fn resolve<'a>(&'a self, ty: &'a Ty) -> &'a Ty {
 		match ty {
@@ -173,8 +205,12 @@ fn render(ty: &Ty, out: &mut String) {
 		Ty::Record { name, fields } => {
 			// every other record carries attributes the crate has no use for but must preserve in the text it
 			// embeds in file headers: non-ASCII, escapes, a nested object
-			if name % 2 == 1 {
+			if name % 4 == 1 {
 				write!(out, "{{\"type\":\"record\",\"doc\":\"d\u{e9}j\u{e0} \\\"vu\\\" \\\\ \\u20ac \\n\",\"x-meta\":{{\"k\":[1,null,\"\u{1F600}\"]}},\"name\":\"{}\",\"fields\":[", type_name(*name)).unwrap();
+			} else if name % 4 == 3 {
+				// a string that ENDS in an escaped backslash, an escaped quote right after a backslash, strings with
+				// runs of spaces after it, numbers in other notations
+				write!(out, "{{\"type\":\"record\",\"doc\":\"logs in C:\\\\dir\\\\\",\"x-note\":\"two  spaces, a \\\\\\\" and a tab\\t here\",\"x-num\":[1e2,-0.50,1.0E+1],\"name\":\"{}\",\"fields\":[", type_name(*name)).unwrap();
 			} else {
 				write!(out, "{{\"type\":\"record\",\"name\":\"{}\",\"fields\":[", type_name(*name)).unwrap();
 			}
@@ -231,6 +267,106 @@ fn render(ty: &Ty, out: &mut String) {
 		)
 		.unwrap(),
 	}
+}
+
+/// What the value generator has to do to make a schema from `gen_scale_schema` bite
+#[derive(Clone, Copy, Debug, PartialEq, Eq, Serialize, Deserialize)]
+pub struct Scale {
+	/// element count of top-level arrays / maps (0 = ordinary)
+	pub len: usize,
+	/// levels of a recursive list (0 = ordinary)
+	pub depth: u32,
+	/// fields / branches / symbols of the wide node (budget only)
+	pub width: u32,
+	/// exact string / bytes length to hover around (0 = ordinary)
+	pub str_len: usize,
+}
+
+/// Deliberately LARGE-SCALE but entirely legitimate schemas, which small random generation does not reach: counts,
+/// indices and lengths whose varints take 2 or 3 bytes, hundreds of fields / branches / symbols / named types, values
+/// around the 8 KiB and 64 KiB marks, nesting close to (but within) the default depth limit. `cheap` keeps the
+/// encoded size small enough for checks that enumerate per-byte schedules.
+pub fn gen_scale_schema(rng: &mut Rng, cheap: bool) -> (Ty, Scale) {
+	let mut sc = Scale { len: 0, depth: 0, width: 0, str_len: 0 };
+	let tail = |t: Ty| Ty::Record { name: 0, fields: vec![(0, t), (1, Ty::Long)] };
+	let ty = match rng.below(8) {
+		0 => {
+			let symbols = *rng.pick(&[64u16, 65, 127, 128, 129, 255, 256, 257, 300]);
+			sc.width = symbols as u32;
+			tail(Ty::Array(Box::new(Ty::Enum { name: 1, symbols })))
+		}
+		1 => {
+			// a union with many named branches: indices of 64 and more take two bytes
+			let n = *rng.pick(&[62u16, 63, 64, 65, 126, 127, 128, 200]);
+			sc.width = n as u32;
+			let mut ts = vec![Ty::Null, Ty::String];
+			for i in 0..n {
+				let name = 32 + i;
+				ts.push(match i % 3 {
+					0 => Ty::Fixed { name, size: 1 + (i as u32 % 3) },
+					1 => Ty::Enum { name, symbols: 2 },
+					_ => Ty::Record { name, fields: vec![(0, Ty::Int)] },
+				});
+			}
+			ts.push(Ty::Long);
+			tail(Ty::Array(Box::new(Ty::Union(ts))))
+		}
+		2 => {
+			let n = *rng.pick(&[63u16, 64, 65, 127, 128, 129, 255, 256, 300]);
+			sc.width = n as u32;
+			let fields = (0..n)
+				.map(|i| {
+					(
+						i,
+						// named types at irregular distances from one another (whatever is indexed by node or by name
+						// sees many of them), scalars in between
+						match i % 11 {
+							0 => Ty::Int,
+							1 | 6 => Ty::String,
+							2 => Ty::Union(vec![Ty::Null, Ty::Long]),
+							3 => Ty::Enum { name: 40 + i, symbols: 2 + i % 3 },
+							4 => Ty::Boolean,
+							5 => Ty::Fixed { name: 40 + i, size: 1 + (i as u32 % 4) },
+							7 => Ty::Record { name: 40 + i, fields: vec![(0, Ty::Int), (1, Ty::Boolean)] },
+							8 => Ty::Long,
+							9 if i > 20 => Ty::Ref(40 + i - 6), // the enum six fields back
+							_ => Ty::Bytes,
+						},
+					)
+				})
+				.collect();
+			tail(Ty::Record { name: 1, fields })
+		}
+		3 | 4 => {
+			// long arrays / maps: the block count takes 2 bytes from 64 and 3 bytes from 8192 elements
+			sc.len = if cheap { *rng.pick(&[63usize, 64, 65, 127, 128, 200]) } else { *rng.pick(&[63usize, 64, 65, 128, 200, 1000, 8191, 8192, 8193, 20000]) };
+			let elem = if sc.len > 1000 {
+				rng.pick(&[Ty::Int, Ty::Null, Ty::Boolean, Ty::Long]).clone()
+			} else {
+				rng.pick(&[Ty::Int, Ty::Null, Ty::String, Ty::Union(vec![Ty::Null, Ty::Int]), Ty::Record { name: 1, fields: vec![(0, Ty::Int), (1, Ty::String)] }, Ty::Record { name: 1, fields: vec![] }]).clone()
+			};
+			if rng.bool() {
+				tail(Ty::Array(Box::new(elem)))
+			} else {
+				tail(Ty::Map(Box::new(elem)))
+			}
+		}
+		5 => {
+			// a linked list nested as deep as the default depth limit (64) is documented to allow for sure: a level costs
+			// the record, the union and what the target asks for in between (at most 4 per level, plus the root)
+			sc.depth = *rng.pick(&[8u32, 12, 14, 15]);
+			Ty::Record { name: 0, fields: vec![(0, Ty::Int), (1, Ty::Union(vec![Ty::Null, Ty::Ref(0)])), (2, Ty::String)] }
+		}
+		6 => {
+			let size = if cheap { *rng.pick(&[64u32, 127, 128, 300]) } else { *rng.pick(&[64u32, 128, 8191, 8192, 8193, 16384, 65535, 65536, 65537, 70000]) };
+			tail(Ty::Fixed { name: 1, size })
+		}
+		_ => {
+			sc.str_len = if cheap { *rng.pick(&[63usize, 64, 65, 127, 128, 300]) } else { *rng.pick(&[63usize, 64, 8191, 8192, 8193, 8200, 16384, 65535, 65536, 65537, 70000, 140000]) };
+			Ty::Record { name: 0, fields: vec![(0, Ty::String), (1, Ty::Bytes), (2, Ty::Long), (3, Ty::Union(vec![Ty::Null, Ty::String]))] }
+		}
+	};
+	(ty, sc)
 }
 
 /// Another JSON spelling of the same schema with a FORWARD reference: the first named type that is referenced
@@ -426,6 +562,9 @@ pub struct GenCfg {
 	pub max_fields: u32,
 	/// bias toward nested records (C14/C15)
 	pub record_bias: bool,
+	/// decimals on a `fixed` wider than 16 bytes: the crate serializes them (sign extension) but documents that it
+	/// does not deserialize them, so only checks that do not read values back may ask for them
+	pub wide_decimal_fixed: bool,
 }
 impl GenCfg {
 	pub fn default_swarm(rng: &mut Rng) -> Self {
@@ -436,6 +575,7 @@ impl GenCfg {
 			decimals: rng.chance(1, 2),
 			max_fields: 1 + rng.below(6) as u32,
 			record_bias: rng.chance(1, 3),
+			wide_decimal_fixed: false,
 		}
 	}
 }
@@ -587,7 +727,7 @@ impl<'a> GenCtx<'a> {
 				self.decimal_names.push(name);
 				Ty::DecimalFixed {
 				name,
-				size: *self.rng.pick(&[1u32, 2, 4, 8, 12, 16]),
+				size: if self.cfg.wide_decimal_fixed { *self.rng.pick(&[8u32, 16, 17, 20, 32]) } else { *self.rng.pick(&[1u32, 2, 4, 8, 12, 16]) },
 				scale: self.rng.below(4) as u32,
 				precision: 28,
 			}}
